@@ -135,6 +135,9 @@ pub fn run(ctx: &Ctx, rep: &mut Report) {
         "r = {\n  // lead a\n  a: 1, // after comma\n  b: [\n    1 // inner own\n    // inner dangling\n  ] // own\n  // dangling\n}",
         "f = x => do {\n  // c1\n  // c2\n  y = 1  // t1\n  z = 2  // t2\n  // r1\n  // r2\n  return y\n}",
         "g(1, [\n  2 // own\n  // d\n], {\n  k: 3 // own\n  // d\n})",
+        // a statement that starts with a name spelled like a word operator is parenthesised (repo 1decf6c)
+        "f = (a, where, x) => do {\n  // c1\n  a; where into x  // t1\n  // r1\n  return 1\n}",
+        "via = 1 // one\n// lead\nvia + 2 // two",
     ];
     for src in fixed.iter() {
         rep.case(src, true);
